@@ -1977,8 +1977,8 @@ SIGNATURES = {
 
 
 def run(ctx, shards: int) -> None:
-    ctx.hyp("pfam2go", pfam2go_specs(), max_examples=ctx.pick(300, 6000), shards=shards)
-    ctx.hyp("tfbs", tfbs_specs(), max_examples=ctx.pick(200, 4000), shards=shards)
+    ctx.hyp("pfam2go", pfam2go_specs(), max_examples=ctx.pick(240, 6000), shards=shards)
+    ctx.hyp("tfbs", tfbs_specs(), max_examples=ctx.pick(160, 4000), shards=shards)
     ctx.hyp("t2pks", t2pks_specs(), max_examples=ctx.pick(400, 10000), shards=shards)
     ctx.hyp("terpene", terpene_specs(), max_examples=ctx.pick(400, 10000), shards=shards)
     ctx.hyp("asf", asf_specs(), max_examples=ctx.pick(300, 8000), shards=shards)
